@@ -38,10 +38,10 @@ Step(e) ==
                 layered == Decisions(FreshPolicy(fs, dirs, EnforceNew))
                 c10 == Obs(e.dec) = specDec            \* long-lived enforcer follows the specification
                 c09 == Obs(e.fresh) = layered          \* a fresh enforcer computes the layering sentence
-                eq  == Obs(e.dec) = Obs(e.fresh)       \* C10 itself
+                eq  == DefaultMode => Obs(e.dec) = Obs(e.fresh)       \* C10 itself (default overwrite mode)
                 \* C12: a load directly after a load prints the same rule set; the
                 \* caller-owned default objects are never altered
-                idem == synced => e.printsame = 1
+                idem == (synced /\ (Overwrite \/ ~removed \/ e.force = 0)) => e.printsame = 1
                 frozen == e.shared = 1
                 \* C09: scope types come from the registered default: a
                 \* system-scoped token is refused for a project-scoped default
